@@ -172,3 +172,66 @@ def single_return_expr(fi: FuncInfo) -> Optional[ast.AST]:
 def require(cond, msg: str):
     if not cond:
         raise AnalysisError(msg)
+
+
+def result_sites(fi, ff):
+    """(statement, value expression) pairs at which the function's result is built: the `return <expr>` statements, or - for
+    `return <name>` - the assignments of a call to that name (single-exit style).  Facts/environment are taken at that statement."""
+    out = []
+    for r in returns_of(fi):
+        v = r.value
+        if isinstance(v, ast.Name):
+            defs = [s.stmt for s in ff.order if isinstance(s.stmt, ast.Assign) and len(s.stmt.targets) == 1 and isinstance(s.stmt.targets[0], ast.Name)
+                    and s.stmt.targets[0].id == v.id]
+            if defs and all(isinstance(d.value, ast.Call) for d in defs) and ff.at(r).index > max(ff.at(d).index for d in defs):
+                out.extend((d, d.value) for d in defs)
+                continue
+        out.append((r, v))
+    return out
+
+
+class UnknownAtom(Exception):
+    pass
+
+
+def fact_holds(fact, atom_value) -> bool:
+    """truth of one path fact under a valuation of atoms.  atom_value(atom) -> bool or raises UnknownAtom; compound
+    `truthy`/`falsy` facts (disjunctions kept opaque by the fact extractor) are evaluated structurally."""
+    try:
+        return atom_value(fact)
+    except UnknownAtom:
+        pass
+    op, l, r = fact
+    if op in ("truthy", "falsy") and r is None:
+        try:
+            e = ast.parse(l, mode="eval").body
+        except SyntaxError:
+            raise UnknownAtom(l)
+        v = bool_eval(e, atom_value)
+        return v if op == "truthy" else not v
+    raise UnknownAtom(str(fact))
+
+
+def bool_eval(e: ast.AST, atom_value) -> bool:
+    if isinstance(e, ast.Constant) and isinstance(e.value, bool):
+        return e.value
+    if isinstance(e, ast.UnaryOp) and isinstance(e.op, ast.Not):
+        return not bool_eval(e.operand, atom_value)
+    if isinstance(e, ast.BoolOp):
+        if isinstance(e.op, ast.And):
+            for v in e.values:          # short-circuit, like the program
+                if not bool_eval(v, atom_value):
+                    return False
+            return True
+        for v in e.values:
+            if bool_eval(v, atom_value):
+                return True
+        return False
+    if isinstance(e, ast.Call) and dotted(e.func) == "bool" and len(e.args) == 1:
+        return bool_eval(e.args[0], atom_value)
+    if isinstance(e, ast.IfExp):
+        return bool_eval(e.body, atom_value) if bool_eval(e.test, atom_value) else bool_eval(e.orelse, atom_value)
+    ats = atoms_of(e, True)
+    if len(ats) == 1 and ats[0][0] in ("truthy",) and ats[0][1] == unparse(e):
+        return atom_value(ats[0])
+    return all(fact_holds(a, atom_value) for a in ats)
